@@ -89,7 +89,8 @@ def _cat_terminals(g, ints=False):
 
 
 def _int_terminals(g):
-    ids = {a: k for k, a in enumerate(sorted(g.V))}
+    from vlib.dom_cfg import SPARSE_IDS
+    ids = {a: SPARSE_IDS[k] for k, a in enumerate(sorted(g.V))}
     return type(g)(g.S, frozenset(ids.values()), [(w, h, tuple(ids.get(y, y) for y in b)) for w, h, b in g.rules])
 
 
